@@ -59,6 +59,10 @@ type c19Case struct {
 	header  string
 	body    string
 	class   string // "unique" or "redundant:<shape>"
+	// multi-request family: the request list (wrapper files that import X, and X itself);
+	// nil = X alone
+	requests []string
+	wrappers []string
 }
 
 func (c *c19Case) renderX(skip int) string {
@@ -469,11 +473,45 @@ func TestC19(t *testing.T) {
 		c := buildC19(r.Rng(id), redundant, i%5 == 3)
 		runC19(r, id, c, i)
 	})
+	// multi-request family: X is requested together with K files that import it (and are
+	// requested before it, after it, or around it). Whether a file's task is created by the
+	// request loop or by an importer's task must not change its warnings.
+	nm := r.N(48, 400)
+	r.Par(nm, func(i int) {
+		id := fmt.Sprintf("multi/%d", i)
+		if !r.Want(id) {
+			return
+		}
+		rng := r.Rng(id)
+		c := buildC19(rng, "", i%4 == 3)
+		k := []int{1, 3, 40, 400, 1500, 1500}[i%6]
+		for j := 0; j < k; j++ {
+			w := fmt.Sprintf("w%04d.proto", j)
+			c.src[w] = fmt.Sprintf("syntax = \"proto3\";\npackage wrap.w%d;\nimport %q;\n", j, c.xName)
+			c.wrappers = append(c.wrappers, w)
+		}
+		switch (i / 6) % 4 {
+		case 0, 1: // X last
+			c.requests = append(append([]string{}, c.wrappers...), c.xName)
+		case 2: // X first
+			c.requests = append([]string{c.xName}, c.wrappers...)
+		default: // X somewhere inside
+			at := rng.Intn(k + 1)
+			c.requests = append(append(append([]string{}, c.wrappers[:at]...), c.xName), c.wrappers[at:]...)
+		}
+		r.Class(fmt.Sprintf("multi-request: %d importers of X in the request list", k))
+		runC19(r, id, c, i)
+	})
 }
 
 func runC19(r *vlib.Run, id string, c *c19Case, salt int) {
 	par := 1 + (salt%2)*7
-	out := gen.Compile(c.src, []string{c.xName}, gen.Opts{Par: par})
+	reqs := []string{c.xName}
+	if c.requests != nil {
+		reqs = c.requests
+		par = []int{1, 4, 16}[salt%3]
+	}
+	out := gen.Compile(c.src, reqs, gen.Opts{Par: par})
 	wit := func(extra map[string]any) map[string]any {
 		extra["sources"] = c.src
 		extra["imports"] = c.imports
@@ -492,6 +530,22 @@ func runC19(r *vlib.Run, id string, c *c19Case, salt int) {
 	}
 	warned := map[string]int{}
 	ws := unusedWarnings(out)
+	if c.requests != nil {
+		// every wrapper is explicitly requested too and imports X without using it:
+		// exactly one warning, naming X
+		bad := 0
+		for _, w := range c.wrappers {
+			if got := ws[w]; len(got) != 1 || got[0] != c.xName {
+				bad++
+				if bad == 1 {
+					r.Violation("c19.multi-request.wrapper", fmt.Sprintf("a requested file whose only import (of another requested file) is unused draws %s warnings", map[bool]string{true: "no", false: "other/duplicate"}[len(got) == 0]), id,
+						wit(map[string]any{"wrapper": w, "warnings": got, "requests": len(reqs), "max_parallelism": par}))
+				}
+			}
+			delete(ws, w)
+		}
+		r.ClassN("multi-request: wrapper files checked for exactly one warning", int64(len(c.wrappers)))
+	}
 	for f, paths := range ws {
 		for _, p := range paths {
 			if f != c.xName {
@@ -578,6 +632,9 @@ func runC19(r *vlib.Run, id string, c *c19Case, salt int) {
 		}
 		if im.Redundant == "" && im.NsMatch && im.ExpectRemovable {
 			cls = "unique provider: removable import (unused / related-unnamed) whose package is the namespace through which a partially-qualified reference to ANOTHER import resolves"
+		}
+		if c.requests != nil {
+			cls = "X requested together with files that import it | " + cls
 		}
 		if im.Public {
 			evaluated = append(evaluated, "")
